@@ -98,6 +98,11 @@ func c05CookedTimeout(c *mon.Case, sp c05Spec) {
 		case e == nil:
 			// room appeared after all; B's request is pending and answered below just the same
 			timedOut = true
+		case e == mangos.ErrSendTimeout:
+			// the Send did wait for room, but its 40 ms were over before the harness had seen it parked
+			// (a loaded machine): a legitimate outcome against a requester that takes nothing, it just
+			// was not used.  The context holds no request now; the next round starts afresh.
+			c.Count("blocked_send_timed_out_before_observed_parked", 1)
 		default:
 			c.Violate(proto+"/send-error:"+errName(e), "Send to a slow requester returned %v (request from B received meanwhile: %v)", e, hdrB != nil)
 			return
@@ -136,7 +141,13 @@ func c05CookedTimeout(c *mon.Case, sp c05Spec) {
 		c.Violate(proto+"/reply-header-mismatch", "the reply to B carries header %x, B's request carried %x", h, hdrB)
 	}
 	a.ReleaseSends()
-	// a later exchange with A still works, and A never sees B's reply
+	// a later exchange with A still works, and A never sees B's reply.  A takes what is queued for it
+	// again, so the sentinel needs no deadline: how soon A's sender gets to run is the machine's
+	// business, and whether it ever does is the stuck detector's.
+	if err := cx.SetOption(mangos.OptionSendDeadline, time.Hour); err != nil {
+		c.Inconclusive("SetOption(SendDeadline, 1h): %v", err)
+		return
+	}
 	hdrA := mkHdr()
 	last := []byte("last-request-from-A-" + name)
 	a.Inject(hx.Cat(hdrA, last))
